@@ -17,16 +17,16 @@ C2Key == [c \in C2 |-> IF c = "c1" THEN 1 ELSE 2]
 VS3 == {{}, {"c1"}, {"c1", "c2"}}
 
 D1 == {"STAKINGMIN"}
-D1Vals == [i \in D1 |-> {10000, 20000}]
+D1Vals == [i \in D1 |-> {0, 10000, 20000}]      \* 0: never acceptable (ValidVal)
 D2 == {"STAKINGMIN", "NAMEPRICE"}
-D2Vals == [i \in D2 |-> IF i = "STAKINGMIN" THEN {10000, 20000} ELSE {2}]
+D2Vals == [i \in D2 |-> IF i = "STAKINGMIN" THEN {0, 10000, 20000} ELSE {0, 2}]
 D0 == {}
 D0Vals == [i \in D0 |-> {}]
 
 N0 == {}
 N1 == {"n1"}
 N2 == {"n1", "n2"}
-Defaults == [p \in ParamIds |-> CASE p = "BPCOUNT" -> 3 [] p = "STAKINGMIN" -> 10000 [] p = "NAMEPRICE" -> 1]
+Defaults == [p \in ParamIds |-> CASE p = "BPCOUNT" -> 3 [] p = "STAKINGMIN" -> 10000 [] p = "GASPRICE" -> 50 [] p = "NAMEPRICE" -> 1]
 
 viewAbs == view
 
@@ -36,7 +36,9 @@ genState == [h |-> height, nops |-> nops, sys |-> sysBal, nb |-> nameBal, total 
              acct |-> [a \in Accts |-> [bal |-> bal[a], amt |-> stake[a].amt, when |-> stake[a].when, ever |-> stake[a].ever,
                                         vpr |-> vpr[a], vote |-> vote[a]]],
              tally |-> tally, vtotal |-> voteTotal, param |-> param, pnext |-> paramNext, names |-> names,
-             rank |-> [i \in Issues |-> Ranking(i)]]
+             rank |-> [i \in Issues |-> Ranking(i)],
+             \* identifies the node as long as a DiscardBlock (which leads back to it) is still possible
+             bs |-> IF ndisc < MaxDiscards THEN blockStart ELSE <<>>]
 GenLog == PrintT("TR|" \o ToJson(<<genState, lastAct', genState'>>))
 ASSUME PrintT("OPS|" \o ToJson(Ops))
 =============================================================================
